@@ -132,7 +132,7 @@ def arrBytes (n : Nat) : Int :=
 def Stats.onAlloc (st : Stats) (k : Kind) (n : Nat) : Stats :=
   match k with
   | .arr => { st with numArrays := st.numArrays + 1, arrayBytes := st.arrayBytes + arrBytes n }
-  | .map => { st with numMappings := st.numMappings + 1 }
+  | .map => { st with numMappings := st.numMappings + 1, mapNodes := st.mapNodes + (n / 2 : Nat) }
   | .str => { st with distinctStrings := st.distinctStrings + 1, allocdStrings := st.allocdStrings + 1 }
   | .mstr => { st with distinctStrings := st.distinctStrings + 1, allocdStrings := st.allocdStrings + 1 }
   | .obj => { st with objects := st.objects + 1 }
@@ -290,14 +290,15 @@ def mstep (s : St) : Mi → M St
     match s.heap[d]? with
     | none => throw .uaf
     | some cell =>
-      if !cell.live then throw .uaf
+      -- nodes exist in mappings only (find_for_insert); anything else is outside the primitive's contract
+      if !cell.live || cell.kind != .map then throw (if !cell.live then .uaf else .misuse)
       else pure { (s.setCell d { cell with items := cell.items ++ [.num 0, .num 0] }) with
                   stats := { s.stats with mapNodes := s.stats.mapNodes + 1 } }
   | .shrink d j =>
     match s.heap[d]? with
     | none => throw .uaf
     | some cell =>
-      if !cell.live then throw .uaf
+      if !cell.live || cell.kind != .map then throw (if !cell.live then .uaf else .misuse)
       else match cell.items[2 * j]?, cell.items[2 * j + 1]? with
         | some (.num _), some (.num _) =>
           pure { (s.setCell d { cell with items := (cell.items.eraseIdx (2 * j + 1)).eraseIdx (2 * j) }) with
